@@ -322,6 +322,15 @@ def validNodeKey (n : Nat) (b : Bytes) : Bool :=
     lastBits ≤ 8 && (b.length - 2) * 8 + lastBits ≤ n
   | _ => false
 
+/-- the stricter value check (proposed hardening): a node value is a hash (32 bytes), or the 20-byte value of one of the
+two reserved leaves. With fixed value lengths the boundary between a node's key and value inside the unframed parent
+hash input `lk ‖ lv ‖ rk ‖ rv` cannot be moved. -/
+def valueLenOk (n : Nat) (p : PNode) : Bool :=
+  p.value.length == 32 || (p.value.length == 20 && (p.key == encodeKey (minKey n) || p.key == encodeKey (maxKey n)))
+
+/-- what `VerifyProof` demands of every proof node before anything else (`strict` = with the value-length check) -/
+def nodeOk (strict : Bool) (n : Nat) (p : PNode) : Bool := validNodeKey n p.key && (!strict || valueLenOk n p)
+
 /-- the hash fold of the repaired verifier over the siblings (current key bits, hash so far);
 `none` = `ErrInvalidMerkleTreeProof` (a child key is a prefix of the other, or an empty prefix below the top) -/
 def foldFixed (H4 : Bytes → Bytes → Bytes → Bytes → Bytes) : Key → Bytes → List PNode → Option Bytes
@@ -351,12 +360,12 @@ def FVerdict.toVerdict : FVerdict → V.Verdict
   | .errInvalidProof => .errInvalidProof
   | .errReserved => .errReserved
 
-def verifyFixedF (H : Bytes → Bytes) (H4 : Bytes → Bytes → Bytes → Bytes → Bytes) (n : Nat) (userKey value : Bytes) (membership : Bool) (root : Bytes)
+def verifyFixedF (strict : Bool) (H : Bytes → Bytes) (H4 : Bytes → Bytes → Bytes → Bytes → Bytes) (n : Nat) (userKey value : Bytes) (membership : Bool) (root : Bytes)
     (proof : List PNode) : FVerdict :=
   match proof with
   | [] | [_] => .errInvalidProof
   | p0 :: rest =>
-    if !(proof.all fun p => validNodeKey n p.key) then .errInvalidProof else
+    if !(proof.all fun p => nodeOk strict n p) then .errInvalidProof else
     let target := keyOfBytes n (H userKey)
     if target == rootKey n || target == minKey n || target == maxKey n then .errReserved else
     let proven := decodeKey p0.key
@@ -375,8 +384,8 @@ def verifyFixedF (H : Bytes → Bytes) (H4 : Bytes → Bytes → Bytes → Bytes
 /-- `H` is `crypto.Hash` on user keys and values; `H4` the node hash (`h4 H` in the code: the hash of the unframed
 concatenation — kept as a separate parameter because the soundness theorem needs it injective on 4-tuples, which no
 function of a concatenation is) -/
-def verifyFixed (H : Bytes → Bytes) (H4 : Bytes → Bytes → Bytes → Bytes → Bytes) (n : Nat) (userKey value : Bytes)
+def verifyFixed (strict : Bool) (H : Bytes → Bytes) (H4 : Bytes → Bytes → Bytes → Bytes → Bytes) (n : Nat) (userKey value : Bytes)
     (membership : Bool) (root : Bytes) (proof : List PNode) : V.Verdict :=
-  (verifyFixedF H H4 n userKey value membership root proof).toVerdict
+  (verifyFixedF strict H H4 n userKey value membership root proof).toVerdict
 
 end Canopy.Smt
